@@ -182,12 +182,16 @@ func (f *f44) do(kind string, closing, write bool, fn func() error) *op44 {
 
 var disconnectPacket44 = &packet.KeepAlive{RandomID: 99}
 
-func (f *f44) close()        { f.do("Close", true, false, f.mc.Close) }
-func (f *f44) closeUnknown() { f.do("CloseUnknown", true, false, func() error { return CloseUnknown(f.mc) }) }
+func (f *f44) close() { f.do("Close", true, false, f.mc.Close) }
+func (f *f44) closeUnknown() {
+	f.do("CloseUnknown", true, false, func() error { return CloseUnknown(f.mc) })
+}
 func (f *f44) closeWith() {
 	f.do("CloseWith", true, false, func() error { return CloseWith(f.mc, disconnectPacket44) })
 }
-func (f *f44) readLoop() { f.do("readLoop", true, false, func() error { f.mc.startReadLoop(); return nil }) }
+func (f *f44) readLoop() {
+	f.do("readLoop", true, false, func() error { f.mc.startReadLoop(); return nil })
+}
 
 // failingWrite: the peer is gone, the write fails and must close the connection.
 func (f *f44) failingWrite() {
